@@ -278,6 +278,17 @@ func c13envKey(env map[int]string) string {
 
 func c13ref(sym int) *Expr { return &Expr{Kind: Reference, Symbol: sym, Origin: c13node("ref")} }
 
+// c13named sometimes gives a symbol a field name (name=sym, name+=sym).
+func c13named(r *vRand, ref *Expr) *Expr {
+	switch r.Intn(6) {
+	case 0:
+		return &Expr{Kind: Assign, Name: "f", Origin: c13node("f"), Sub: []*Expr{ref}}
+	case 1:
+		return &Expr{Kind: Append, Name: "g", Origin: c13node("g"), Sub: []*Expr{ref}}
+	}
+	return ref
+}
+
 func c13rand(r *vRand, depth, nterms, nnts int, allowSets int, lists bool) *Expr {
 	o := c13node("e")
 	if depth == 0 || r.Intn(4) == 0 {
@@ -285,9 +296,9 @@ func c13rand(r *vRand, depth, nterms, nnts int, allowSets int, lists bool) *Expr
 		case allowSets > 0 && r.Intn(6) == 0:
 			return &Expr{Kind: Set, SetIndex: r.Intn(allowSets), Origin: o, Pos: 1}
 		case r.Intn(3) == 0:
-			return c13ref(nterms + r.Intn(nnts))
+			return c13named(r, c13ref(nterms+r.Intn(nnts)))
 		}
-		return c13ref(1 + r.Intn(nterms-1))
+		return c13named(r, c13ref(1+r.Intn(nterms-1)))
 	}
 	switch r.Intn(7) {
 	case 0, 1:
@@ -309,8 +320,12 @@ func c13rand(r *vRand, depth, nterms, nnts int, allowSets int, lists bool) *Expr
 			return c13ref(1 + r.Intn(nterms-1))
 		}
 		e := &Expr{Kind: List, Origin: o, Pos: 1, Sub: []*Expr{c13rand(r, depth-1, nterms, nnts, allowSets, false)}}
-		if r.Intn(2) == 0 {
+		switch r.Intn(4) {
+		case 0, 1:
 			e.Sub = append(e.Sub, c13ref(1+r.Intn(nterms-1)))
+		case 2:
+			// a separator of two tokens
+			e.Sub = append(e.Sub, &Expr{Kind: Sequence, Origin: o, Sub: []*Expr{c13ref(1 + r.Intn(nterms-1)), c13ref(1 + r.Intn(nterms-1))}})
 		}
 		if r.Intn(2) == 0 {
 			e.ListFlags |= OneOrMore
